@@ -3,8 +3,8 @@ package main
 // Component model of throttle.ThrottledRecorder for the E2 fix-point.
 
 import (
-	"go/constant"
 	"fmt"
+	"go/constant"
 	"go/types"
 	"sort"
 	"strings"
